@@ -50,7 +50,8 @@ CHECKS = {
              "overflowing/out-of-bounds reads fail, nothing panics) - hence independence from history and chunk alignment; C13_read_exact/_until_exact/_in_bounds_succeeds spell the spec out; "
              "C13_schedule_independent: taking each call as one atomic step (what the two mutexes provide), under ANY interleaving of several threads' calls every thread gets the specified answers to its own calls; "
              "C13_constants re-checks the regenerated constants. Tied to samply-symbols by running FileContentsWithChunkedCaching on generated call sequences and evaluating spec + model in Coq, "
-             "and by a multi-threaded stream (real threads released together onto one fresh cache, hundreds of rounds per case, every answer against the specification). "
+             "and by a multi-threaded stream (real threads released together onto one fresh cache, hundreds of rounds per case, every answer against the specification); "
+             "read_bytes_into is a model operation of its own (ReadInto) and the source can fail a read once (the calls that met the failure are left out: a failed read leaves no trace). "
              "Two defects (F-C13a/b) were found, fixed by fix: commits and stay in corpus/C13.",
         note="Trusted: Coq kernel; RangeMap overwrite semantics as modelled; harness h_symbols (byte comparison against the in-memory file). "
              "Not proved: that the mutex scopes make each call atomic (assumed by C13_schedule_independent; the lock scope is pinned and the multi-threaded stream samples real schedules, which is testing), FrozenVec slice validity.",
@@ -166,7 +167,9 @@ CHECKS = {
              "C16_atomic_visibility (the final path is absent or holds the complete contents of one successful write), C16_stable (once present it never changes), C16_at_most_once (at most one rename), "
              "C16_mutex (writers exclude each other although the lock path is unlinked on success), C16_success_sees_complete, C16_retry (after any failed/killed attempts a fresh creator succeeds). "
              "Tied to wholesym/src/file_creation.rs by running the real routine (step hook) with 2..5 creators in 1..4 processes under driver-chosen schedules with SIGKILLs, replaying every observed "
-             "trace in the model (same step, same dest/.part/.lock contents after every step) and deciding the property on the observations.",
+             "trace in the model (same step, same dest/.part/.lock contents after every step) and deciding the property on the observations; the two callers run end to end through "
+             "wholesym (harness h_ws): the derived .symindex under a file-size limit that fails a write (also for indexes above 2 MiB, against an index made directly with samply-symbols), and "
+             "a .sym download from a local HTTP server whose first response is cut short (inside a gzip stream, or before Content-Length bytes): the cache file is absent or complete.",
         note="Trusted: Coq kernel; the cfg(samply_verif) step hook; harness h_fc and the scheduler in vlib/c16.py; Linux flock/rename/unlink semantics as modelled (inode-based). The proof is about the "
              "model's interleaving semantics at the granularity of the hooked steps; instants inside one system call, power loss and Windows are not covered; cancellation is represented by process death.",
         technique="Coq proof (inductive invariant of an interleaving small-step semantics with inode-level locks; progress argument for the retry clause) + trace-conformance correspondence run evaluated by vm_compute",
